@@ -381,9 +381,9 @@ func ruleChunkLimits(c *Ctx, r *Report, prefix string) {
 		return
 	}
 	allowed := map[string]string{
-		"(lzma.Writer2Config).NewWriter2":   "65536",
-		"(*lzma.Writer2).flushChunk":         "65536",
-		"lzma.newRangeEncoder":               "9223372036854775807",
+		"(lzma.Writer2Config).NewWriter2":     "65536",
+		"(*lzma.Writer2).flushChunk":          "65536",
+		"lzma.newRangeEncoder":                "9223372036854775807",
 		"(*lzma.LimitedByteWriter).WriteByte": "N-1",
 	}
 	n := 0
